@@ -39,8 +39,9 @@ PLAN = {
             'thorough': dict(workers=16, budget=900, watchdog=2400)},
     'C15': {'quick': dict(workers=16, budget=40, watchdog=300),
             'thorough': dict(workers=16, budget=900, watchdog=2400)},
-    'C14': {'quick': dict(workers=16, budget=40, watchdog=300),
-            'thorough': dict(workers=16, budget=600, watchdog=1800)},
+    # C14 forks per history; this VM serialises fork() globally (~130/s), so more workers do not help
+    'C14': {'quick': dict(workers=6, budget=45, watchdog=300),
+            'thorough': dict(workers=6, budget=900, watchdog=2400)},
     'C05': {'quick': dict(workers=16, budget=40, watchdog=300),
             'thorough': dict(workers=16, budget=600, watchdog=1800)},
 }
